@@ -895,3 +895,114 @@ Proof.
       rewrite t_objs_set_objs. apply store_extends_put. }
     eapply frame_fr; [exact H1|]. frame_auto.
 Qed.
+
+(* ---------------------------------------------------------------- edit / rebase *)
+
+Lemma edit_closure_np : forall pn o t,
+  wf_txn t -> uinv t -> is_patch_commit (t_objs t) o -> t_patch t pn <> None ->
+  nsat uinv (let above := after_name pn (t_applied t) in
+             let '(t1, extra) := pop_patches (fun n => mem n above) t in
+             match extra with
+             | _ :: _ => TPanic
+             | [] => tbind (update_patch pn o t1) (push_patches above false)
+             end).
+Proof.
+  intros pn o t W U Ho Hpn. cbv zeta.
+  destruct (edit_pop_facts pn t W) as (k & -> & -> & W1 & Hds & Hin).
+  assert (U1 : uinv (edit_popped t k)) by (eapply uinv_same; [| |exact U]; reflexivity).
+  change (t_patch (edit_popped t k) pn <> None) in Hpn.
+  pose proof (update_patch_wf pn o (edit_popped t k) W1 Ho) as Hw.
+  pose proof (update_patch_np pn o (edit_popped t k) U1 Hpn) as Hu.
+  unfold update_patch in *.
+  destruct (t_patch (edit_popped t k) pn); [|congruence].
+  cbn [tbind good res_sat nsat] in *.
+  apply push_patches_np0; [exact Hw|exact Hu|exact Hds|exact Hin].
+Qed.
+
+Lemma run_edit_np : forall w l m msg,
+  Inv w -> stack_ref_has_parent w -> snd (run_edit w l m msg) <> XPanic.
+Proof.
+  intros w l m msg Hi Hs. unfold run_edit.
+  lazymatch goal with |- snd (match ?x with Some _ => _ | None => _ end) <> XPanic =>
+    destruct x as [loc_l|] eqn:Eol end; [|discriminate].
+  assert (Hwf : match loc_l with Some l0 => wf_loc l0 | None => True end).
+  { destruct l as [os|]; [|injection Eol as <-; exact I].
+    destruct (parse_locator os) eqn:Epl; [|discriminate]. injection Eol as <-. now apply parsed_wf in Epl. }
+  np_open. set (s := op_state op) in *.
+  destruct (negb (head_top_ok op)); [np_leaf|].
+  match goal with |- snd (rres_bind _ ?r _) <> XPanic =>
+    assert (Hr : match r with ROk pn => In pn (all_of s) | RErr _ => True | RPanic => False end);
+    [|destruct r as [pn| |]; cbn [rres_bind]; [|np_leaf|destruct Hr]] end.
+  { destruct loc_l as [l0|].
+    - pose proof (resolve_sound (view_of s) l0 Hwf) as H.
+      destruct (resolve_name (view_of s) l0); exact H.
+    - destruct (last_error (s_applied s)) as [n0|] eqn:El; [|exact I].
+      apply in_applied_all. now apply last_error_In in El. }
+  subst s.
+  pose proof (on_ok _ _ Eo) as Hop. pose proof Hop as [Hiw [Hst _]].
+  pose proof (state_has _ _ pn Hst Hr) as Hpn.
+  destruct (pm_get (s_patches (op_state op)) pn) as [pc|] eqn:Epc; [|congruence].
+  pose proof Hst as [_ [_ [_ [Hp _]]]]. apply Inv_iff in Hiw as [[Hcl _] _].
+  pose proof (Hp _ _ Epc) as Hpc.
+  destruct (get (w_objs (op_world op)) pc) as [old|] eqn:Eg.
+  2:{ exfalso. destruct Hpc as [[c [Hc _]] _]. congruence. }
+  destruct (_ && _); [np_leaf|].
+  unfold put. cbv beta iota zeta.
+  apply transact_np.
+  - apply op_ok_put; [exact Hop|]. intros p Hin. apply (patch_parents_plain _ pc Hcl Hpc).
+    unfold parents_of. now rewrite Eg.
+  - apply sref_with_objs; [apply store_extends_put|apply Eo].
+  - intros W. apply edit_closure; [exact W|]. eapply patch_commit_copy'; eassumption.
+  - intros W U _. apply edit_closure_np; [exact W|exact U| |].
+    + eapply patch_commit_copy'; eassumption.
+    + unfold t_patch. cbn. now rewrite Epc.
+  - apply frame_edit_body.
+Qed.
+
+Lemma run_rebase_np : forall w tg,
+  Inv w -> stack_ref_has_parent w -> snd (run_rebase w tg) <> XPanic.
+Proof.
+  intros w tg Hi Hs. unfold run_rebase. np_open.
+  pose proof (on_ok _ _ Eo) as Hop.
+  destruct (resolve_gtarget (op_world op) tg) as [target|] eqn:Et; [|np_leaf].
+  apply (resolve_gtarget_plain _ _ _ (proj1 Hop)) in Et.
+  destruct (Nat.eqb target (op_base op)); [np_leaf|].
+  destruct (negb (head_top_ok op)); [np_leaf|].
+  destruct (dirty (op_world op)); [np_leaf|].
+  pose proof Hop as [_ [Hst _]]. destruct (state_lists _ _ Hst) as [Hda _].
+  match goal with |- context [transact ?o ?a ?f ?m] =>
+    assert (Hm : Inv (fst (transact o a f m))
+                 /\ store_extends (w_objs (op_world op)) (w_objs (fst (transact o a f m)))
+                 /\ stack_ref_has_parent (fst (transact o a f m))
+                 /\ snd (transact o a f m) <> XPanic);
+    [|destruct (transact o a f m) as [w2 x] eqn:Etr] end.
+  { assert (Hg : forall t, wf_txn t ->
+              good (TOk (fst (pop_patches (fun n => mem n (s_applied (op_state op))) t)))).
+    { intros t W. cbn [good res_sat]. destruct (pop_patches _ t) as [t1 inc] eqn:Ep. cbn [fst].
+      now apply (pop_wf _ _ _ _ W) in Ep as [W1 _]. }
+    split; [|split; [|split]].
+    - apply transact_inv; [exact Hop|apply Hg|cbn [frame]; apply fr_pop].
+    - apply transact_extends. cbn [frame]. apply fr_pop.
+    - apply transact_sref; [apply Eo|cbn [frame]; apply fr_pop].
+    - apply transact_np; [exact Hop|apply Eo|apply Hg| |cbn [frame]; apply fr_pop].
+      intros W U _. cbn [nsat]. now apply uinv_pop. }
+  cbn [fst snd] in Hm. destruct Hm as [Hi2 [He2 [Hs2 Hx]]].
+  destruct x; try exact Hx; try discriminate.
+  pose proof (Inv_reset_hard w2 target (tree_of (w_objs w2) target) false Hi2
+                (is_plain_ext _ _ _ He2 Et)) as Hi3.
+  set (w3 := mkWorld _ _ _ _ _ _ _) in *.
+  assert (Hs3 : stack_ref_has_parent w3)
+    by (eapply sref_dep; [| |exact Hs2]; [apply store_extends_refl|reflexivity]).
+  destruct (open_stack PRequire w3) as [op3|] eqn:Eo3; [|np_leaf].
+  destruct (log_extmods_first op3) as [op4|] eqn:El; [|np_leaf].
+  destruct (rebase_reopened _ _ _ _ _ _ _ _ Etr Eo3 El) as [Ea4 [Eu4 _]].
+  apply (open_opn _ _ _ Hi3 Hs3) in Eo3.
+  pose proof (log_extmods_first_ok _ _ (on_ok _ _ Eo3) El) as Hok4.
+  pose proof (log_extmods_first_sref _ _ (on_sref _ _ Eo3) El) as Hsr4.
+  destruct (negb (head_top_ok op4)); [np_leaf|].
+  apply transact_np; [exact Hok4|exact Hsr4| | |apply frame_push_patches].
+  - intros W. eapply res_sat_impl; [apply push_patches_wf; [exact W|exact Hda|]|intros t' P; apply P].
+    eapply rebase_push_pre; eassumption.
+  - intros W U _. apply push_patches_np0; [exact W|exact U|exact Hda|].
+    eapply rebase_push_pre; eassumption.
+Qed.
